@@ -46,7 +46,8 @@ def run(ctx):
                 "(partial, one-sided keys) in max and min orientation, gap costs 0/0.5/1/2/3; traceback order None and all "
                 "6 permutations; value and score matrix compared exactly with the Lean model, every reconstructed "
                 "alignment checked (equal lengths, no gap-gap column, reduces to the inputs, scores the returned value) "
-                "and compared with the model traceback; non-trivial = both sequences non-empty and different")
+                "and compared with the model traceback; every third case is also called with the sequences swapped and "
+                "the dictionary transposed (same optimum by C17_transpose); non-trivial = both sequences non-empty and different")
     rng = ctx.rng
     maxl = 4 if ctx.thorough else 3
     seqs = [""] + ["".join(p) for n in range(1, maxl + 1) for p in itertools.product(ALPHA, repeat=n)]
@@ -108,6 +109,25 @@ def run(ctx):
             res.violations.append(dict(info, clause="the returned value is the maximum total score over all global "
                                                     "alignments", got=float(value), optimum=want))
             continue
+        # C17_transpose: the optimum for (s2, s1) under the transposed scoring is the optimum for (s1, s2), so the
+        # implementation must return the same value there (the transposed dictionary {(b, a): v} denotes the
+        # transposed function under make_substitution_fn's (a, b)-then-(b, a) lookup)
+        if res.evaluations % 3 == 0:
+            tkw = {}
+            if cfg["kind"] != "default":
+                tkw["substitution"] = al.make_substitution_fn({(b, a): v for (a, b), v in cfg["matrix"].items()},
+                                                              gap=cfg["gap"], opt=cfg["opt"])
+            try:
+                tvalue = float(al.needleman_wunsch(a2, a1, **tkw)[0])
+            except Exception as ex:
+                tvalue = type(ex).__name__ + ":" + str(ex)[:100]
+            res.hit("transposed_call")
+            if tvalue != want:
+                res.violations.append(dict(info, clause="the returned value is the maximum total score over all global "
+                                                        "alignments (call with the sequences swapped and the "
+                                                        "substitution dictionary transposed; optimum by C17_transpose)",
+                                           got=tvalue, optimum=want))
+                continue
         mm = np.array(mo["matrix"], dtype=float) / -SC
         if scores.shape != mm.shape or not np.array_equal(np.array(scores, dtype=float) + 0.0, mm + 0.0):
             res.mismatches.append(dict(info, what="score matrix differs from the Lean model",
